@@ -1466,7 +1466,8 @@ class Operation(_IRNode):
         if (
             self.parent is not None
             and other.parent is not None
-            and context.get(self.parent) != other.parent
+            and self.parent in context
+            and context[self.parent] != other.parent
         ):
             return False
         if not all(
